@@ -68,7 +68,7 @@ fn current() -> Option<Arc<(Mutex<Sched>, Condvar)>> {
 }
 
 fn is_blocking(e: &Event) -> bool {
-    matches!(e, Event::Lock { .. } | Event::Rmw { .. })
+    matches!(e, Event::Lock { .. } | Event::Rmw { .. } | Event::Load { .. })
 }
 
 impl Sched {
@@ -416,6 +416,9 @@ fn run_k_inner(args: &[&str]) -> String {
                 let o = if *order == std::sync::atomic::Ordering::AcqRel { String::new() } else { format!("~{order:?}") };
                 format!("{}{}{}", if *delta >= 0 { "+" } else { "" }, delta, o)
             }
+            // a plain read of the reference count (the unchanged code has none: every decision is taken on the value a
+            // read-modify-write returns)
+            Event::Load { order } => format!("?{order:?}"),
             Event::Alloc { ptr, .. } => format!("A{}", id(*ptr)),
             Event::Free { ptr } => format!("F{}", id(*ptr)),
         };
